@@ -245,6 +245,8 @@ func (c *Conn) Close() error {
 
 	// Stop routing incoming packets to this stream.
 	c.handler.rmStream(c.stanzaWriter.sid)
+	// No more data can arrive: wake up pending reads however Close ends.
+	defer c.closeReadReady()
 
 	// Flush any remaining data to be written.
 	err := c.Flush()
@@ -269,7 +271,6 @@ func (c *Conn) Close() error {
 	if err != nil {
 		return err
 	}
-	c.closeReadReady()
 	return respReadCloser.Close()
 }
 
@@ -291,6 +292,8 @@ func (c *Conn) closeNoNotify(t xmlstream.Encoder) error {
 	c.closed = true
 
 	c.handler.rmStream(c.stanzaWriter.sid)
+	// No more data can arrive: wake up pending reads however the close ends.
+	defer c.closeReadReady()
 
 	// Flush any remaining data to be written.
 	err := c.flush(t)
@@ -298,7 +301,6 @@ func (c *Conn) closeNoNotify(t xmlstream.Encoder) error {
 		return err
 	}
 
-	c.closeReadReady()
 	return c.closeFlushFunc()
 }
 
